@@ -154,6 +154,8 @@ class ConvertLevel(FragmentTask):
             return (Vec([NEW(fi, t) for t in range(n)], "array"),
                     NDArray([n, 2], lambda ix, fi=fi: MN(fi, to_z3(ix[0]), to_z3(ix[1])), "f8"),
                     NDArray([n, 2], lambda ix, fi=fi: MX(fi, to_z3(ix[0]), to_z3(ix[1])), "f8"))
+        from pyvc.task import require_return_arity
+        require_return_arity(ex, [CK + "write_plt_bin_from_chk"], 3)
         self.contracts = {CK + "write_plt_bin_from_chk": worker}
         self_ = Record(CK + "chk2plt", boxes=[boxes], nboxes=[3], state_field_indices=Opaque("sfi", "obj"), do_gradp=True,
                        do_species_reactions=True, floor_massfracs=False, chkdir="chk", pltdir="plt", nfields_out=2, max_level=0)
@@ -313,6 +315,8 @@ class ConvertScatter(FragmentTask):
         arr2 = lambda rows: NDArray([len(rows), 2], lambda ix, rows=rows: _pick2(rows, ix), "f8")
         out = [(Vec(offs[f], "array"), arr2(mins[f]), arr2(maxs[f])) for f in range(2)]
         P = z3.Function("PRIOR", z3.IntSort(), z3.IntSort(), R)
+        from pyvc.task import require_return_arity
+        require_return_arity(ex, [CK + "write_plt_bin_from_chk"], 3)
         self.contracts = {CK + "write_plt_bin_from_chk": lambda ex_, args, kw: out[args[0]]}
         frame = {"mp_args": [0, 1], "state_bin_box_ids": [Vec([a, b], "array"), Vec([1], "array")],
                  "all_offsets_plt": Vec([z3.Real("o0"), z3.Real("o1"), z3.Real("o2")], "array"),
